@@ -277,6 +277,58 @@ def r4(ctx, rep):
                               file=f["file"], line=arm["l"], fn=f["path"])
 
 
+def r5(ctx, rep):
+    rep.rule("C01.R5", "join side names map to the join kind of the same name, in the resolver's two tables and in the SQL generator", floor=12)
+    syn = ctx.syn
+    f = syn.fn("resolve_special_func", crate="prqlc")
+    n_tables = 0
+    for m in matches_of(f["body"]):
+        rows = {}
+        for arm in m["arms"]:
+            for alt in pat_alts(arm["pat"]):
+                h = pat_head(alt)
+                if isinstance(h, tuple) and h[0] == "lit" and isinstance(h[1], str):
+                    b = show(arm["body"])
+                    if b.startswith("JoinSide::"):
+                        rows[h[1]] = last_seg(b)
+        if len(rows) >= 3:
+            n_tables += 1
+            for name, side in rows.items():
+                bare = name.strip('"')
+                rep.check(bare == side.lower(), f"side:{n_tables}:{bare}", f"join side `{name}` is resolved to JoinSide::{side}", file=f["file"], line=m["l"], fn=f["path"])
+            for want in ("inner", "left", "right", "full"):
+                rep.check(any(k.strip('"') == want for k in rows), f"side:{n_tables}:has:{want}", f"join side table #{n_tables} has no row for `{want}`", file=f["file"], line=m["l"], fn=f["path"])
+    rep.check(n_tables == 2, "side-tables", f"expected the bare-word table and the string-literal table of join sides, found {n_tables}", file=f["file"], line=f["l"], fn=f["path"])
+    g = syn.fn("gen_query::translate_join", crate="prqlc")
+    want = {"Inner": "Inner", "Left": "LeftOuter", "Right": "RightOuter", "Full": "FullOuter"}
+    got = {}
+    for m in matches_of(g["body"]):
+        for arm in m["arms"]:
+            h = pat_head(arm["pat"])
+            if isinstance(h, str) and h.startswith("JoinSide::"):
+                b = tail_expr(arm["body"]) if arm["body"].get("k") == "block" else arm["body"]
+                got[last_seg(h)] = last_seg(show(b["f"])) if b.get("k") == "call" else show(b)
+    for k, v in want.items():
+        rep.check(got.get(k) == v, f"sql-join:{k}", f"JoinSide::{k} must be emitted as JoinOperator::{v}; found {got.get(k)}", file=g["file"], line=g["l"], fn=g["path"])
+
+
+def r6(ctx, rep):
+    rep.rule("C01.R6", "a compute is moved in front of a take only when it is plain (shared with C04.R7)", floor=2)
+    syn = ctx.syn
+    r = syn.fn("preprocess::reorder", crate="prqlc")
+    mm = None
+    for x in matches_of(r["body"]):
+        if show(x["e"]) == "prev":
+            mm = x
+    if mm is None:
+        raise AnchorMissing("reorder: match prev")
+    take_arms = [a for a in mm["arms"] if "Take" in show(a["pat"])]
+    ok = len(take_arms) == 1 and show(take_arms[0].get("guard")) == "(infer_complexity(compute) == Complexity::Plain)" and show(take_arms[0]["body"]) == "true"
+    rep.check(ok, "reorder:take", "an aggregate / window compute evaluated in the same SELECT as LIMIT sees all rows, not the taken ones: only Complexity::Plain computes may be hoisted above `take`", file=r["file"], line=mm["l"], fn=r["path"])
+    movers = sorted(show(a["pat"]) for a in mm["arms"] if show(a["body"]) == "true")
+    rep.check(movers == ["Super(Sort(_))", "Super(Take(_))"], "reorder:movable", f"computes may only move across Sort and (plain) Take; arms returning true: {movers}", file=r["file"], line=mm["l"], fn=r["path"])
+
+
 def run(ctx, rep):
-    for r in (r1, r2, r3, r4):
+    for r in (r1, r2, r3, r4, r5, r6):
         rep.guard(r, ctx)
